@@ -3,7 +3,7 @@
    model and compares reply class, driver calls, hook calls, emitted updates and the cache after every request. *)
 From Coq Require Import ZArith NArith Bool List.
 Import ListNotations.
-Require Import FV.Base.Util FV.Base.F64 FV.Base.PyVal FV.C01.Model FV.Gen.C04 FV.C04.Model.
+Require Import FV.Base.Util FV.Base.F64 FV.Base.PyVal FV.C01.Model FV.Gen.C04 FV.C04.Model FV.C04.ConcModel.
 
 (* the generated check_<p> hooks: "if <cond>: <action>" *)
 Inductive hcond := HcNever | HcAlways | HcGt (q : str).      (* HcGt q:  value > self.<q> *)
@@ -87,3 +87,137 @@ Fixpoint diag_from (outs : list out) (os : list obs) : list (bool * bool * bool 
   end.
 Definition model_result (c : case) : list (option ecls) * list (bool * bool * bool * bool * bool) :=
   (map o_reply (model_outs c), diag_from (model_outs c) (c_obs c)).
+
+(* ------------------------------------------------------------------ concurrent cases *)
+(* real threads under the deterministic scheduler: the implementation's events in global order, each with the number of
+   the thread that produced it.  Events that begin an atomic step (the thread was resumed at a synchronisation point):
+   OReq (Dispatcher._lock taken), OAcq (accessLock taken), OHook, OAuto (check functions called), ODrv (driver called).
+   OUpd / OEnd follow inside the same step.  OBad: anything the model has no step for. *)
+Inductive oev :=
+| OReq | OAcq
+| OHook (i : nat) (v : pyval)
+| OAuto (v : pyval)
+| ODrv (pn : str) (nv : pyval) (c : cache)      (* write_<pn>(nv) entered; c = the parameter cache at this moment *)
+| OUpd (pn : str) (x : pyval)
+| OEnd (r : option ecls)
+| OBad.
+
+Definition starts_step (e : oev) : bool :=
+  match e with OReq | OAcq | OHook _ _ | OAuto _ | ODrv _ _ _ => true | _ => false end.
+
+Definition lab_ok (l : label) (e : oev) : bool :=
+  match l, e with
+  | LReq, OReq | LAcq, OAcq => true
+  | LHook i v, OHook j w => Nat.eqb i j && pv_same v w
+  | LAuto v, OAuto w => pv_same v w
+  | LDrv p _ nv c, ODrv pn w oc => str_eqb (p_name p) pn && pv_same nv w && cache_same c oc
+  | LUpd pn x, OUpd qn y => str_eqb pn qn && pv_same x y
+  | LEnd r, OEnd r' => opt_eqb ecls_eqb r r'
+  | _, _ => false
+  end.
+
+Fixpoint all2 {A B} (f : A -> B -> bool) (a : list A) (b : list B) : bool :=
+  match a, b with
+  | [], [] => true
+  | x :: a', y :: b' => f x y && all2 f a' b'
+  | _, _ => false
+  end.
+
+(* an operation of a thread as the harness describes it: a direct call write_<attr>(v) or a change request *)
+Inductive cop := CWrite (attr : str) (v : pyval) (d : drv) | CReq (rq : request).
+
+Fixpoint find_param (accs : list accessible) (attr : str) : option param :=
+  match accs with
+  | [] => None
+  | AParam p :: r => if str_eqb (p_name p) attr then Some p else find_param r attr
+  | _ :: r => find_param r attr
+  end.
+
+Fixpoint resolve_ops (md : mdesc) (ops : list cop) : option (list top) :=
+  match ops with
+  | [] => Some []
+  | CReq rq :: r => option_map (cons (TReq rq)) (resolve_ops md r)
+  | CWrite attr v d :: r =>
+      match find_param (md_acc md) attr, resolve_ops md r with
+      | Some p, Some l => Some (TWrite p v d :: l)
+      | _, _ => None
+      end
+  end.
+
+Fixpoint resolve_progs (md : mdesc) (progs : list (list cop)) : option (list (list top)) :=
+  match progs with
+  | [] => Some []
+  | ops :: r =>
+      match resolve_ops md ops, resolve_progs md r with
+      | Some x, Some l => Some (x :: l)
+      | _, _ => None
+      end
+  end.
+
+Record ccase := {
+  cc_env : pyenv;
+  cc_md : mdesc;
+  cc_hooks : list (nat * (hcond * hact));
+  cc_init : cache;
+  cc_progs : list (list cop);
+  cc_events : list (nat * oev);
+  cc_final : cache;
+}.
+
+(* the schedule = the threads of the step-starting events *)
+Definition sched_of (evs : list (nat * oev)) : list nat :=
+  map fst (filter (fun e : nat * oev => starts_step (snd e)) evs).
+
+(* an event that does not start a step belongs to the thread of the event before it *)
+Fixpoint tids_ok (prev : option nat) (evs : list (nat * oev)) : bool :=
+  match evs with
+  | [] => true
+  | (t, e) :: r =>
+      (if starts_step e then true else match prev with Some u => Nat.eqb t u | None => false end) && tids_ok (Some t) r
+  end.
+
+Definition thread_done (th : thread) : bool :=
+  match t_pc th, t_todo th with PIdle, [] => true | _, _ => false end.
+
+Definition conc_follow (c : ccase) : option (cstate * list label) :=
+  match resolve_progs (cc_md c) (cc_progs c) with
+  | None => None
+  | Some progs =>
+      cfollow (cc_env c) (hook_of (cc_hooks c)) true (cc_md c) (cinit (cc_init c) progs) (sched_of (cc_events c))
+  end.
+
+(* the model, with validation and checks under the accessLock, can take exactly the implementation's steps in the
+   implementation's order and emits exactly its events; all threads have finished; the lock is free; same final cache *)
+Definition check_conc (c : ccase) : bool :=
+  match conc_follow c with
+  | None => false
+  | Some (fin, ls) =>
+      all2 lab_ok ls (map snd (cc_events c)) && tids_ok None (cc_events c)
+      && forallb thread_done (cs_threads fin)
+      && match cs_owner fin with None => true | Some _ => false end
+      && cache_same (cs_cache fin) (cc_final c)
+  end.
+
+Inductive xcase := XSeq (c : case) | XConc (c : ccase).
+Definition check_xcase (x : xcase) : bool :=
+  match x with XSeq c => check_case c | XConc c => check_conc c end.
+
+(* diagnosis: were all steps enabled in the model; number of leading events the model reproduces; final cache equal *)
+Fixpoint agree_prefix (ls : list label) (evs : list oev) : nat :=
+  match ls, evs with
+  | l :: ls', e :: evs' => if lab_ok l e then S (agree_prefix ls' evs') else O
+  | _, _ => O
+  end.
+Definition conc_result (c : ccase) : bool * nat * nat * bool :=
+  match conc_follow c with
+  | None =>
+      (* how far does the skipping run get *)
+      match resolve_progs (cc_md c) (cc_progs c) with
+      | None => (false, O, O, false)
+      | Some progs =>
+          let r := crun (cc_env c) (hook_of (cc_hooks c)) true (cc_md c) (cinit (cc_init c) progs) (sched_of (cc_events c)) in
+          (false, agree_prefix (snd r) (map snd (cc_events c)), length (cc_events c), false)
+      end
+  | Some (fin, ls) =>
+      (true, agree_prefix ls (map snd (cc_events c)), length (cc_events c), cache_same (cs_cache fin) (cc_final c))
+  end.
